@@ -102,6 +102,11 @@ CLAIMED = {
             "Seeded search over 1-3 concurrent requests x nine server plans per transmission (ack then result, result only, ack then link death, death before ack, silence then death, ack and death together, result and death together, ...) x 1-3 link deaths x failing re-dials x caller deadlines x interleavings; a request whose ack the client had read clearly before its link died is never transmitted on a later connection and does not return success without a result; a request never acknowledged is sent again on the replacement connection and succeeds once faults stop; results go to their own request; after the client is closed pending and new invocations return within 30 s.",
             "Trusted: the link tap's record of when the client's reader took a frame; acks racing the link death count as either outcome; connection establishment uses a pre-seeded auth key (the key exchange itself is C09-C12).",
             "DESIGN.md §6 C29"),
+    "C30": ("client", "exploration",
+            "deterministic simulation of the real telegram.Client (session restore, onSession/saveSession, pools, migration, reconnect) with its connection constructor replaced by fakes that own distinct keys/salts and fire session notifications in tape order; every stored blob checked against the confirmed (DC, key, salt) triples; corrupted stored sessions",
+            "Seeded search over PFS on/off x stored session (none, sound for DC 2/4/unset, corrupted key bytes / key id / length) x 2-9 operations (other-DC pool, same-DC pool, CDN pool, migration by call or by USER_MIGRATE answer, connection kill, repeated session notification with a new salt, invocations), sequential or concurrent, and task interleavings; every session the client stores must load, have a key id that belongs to its key, and pair a DC that has been primary with a key (permanent key under PFS) and salt that one non-CDN connection to that DC announced together; a corrupted stored session makes Run fail before the callback and is never handed to a connection; a sound one is what the first connection gets.",
+            "Trusted: fake connections stand in for manager.Conn (which maps mtproto session events to the handler one to one); the overlay export VerifSetConstructor is the same seam the package's own tests use.",
+            "DESIGN.md §6 C30"),
     "C16": ("stream", "exploration",
             "deterministic simulation of codecs + transport connection/listener over a chunking byte-stream network with concurrent senders; sequence-equality oracle",
             "Seeded search over codec x handshake/listener mode x obfuscation x read chunking x 1-3 concurrent senders x payload sizes clustered at the length-encoding boundaries; the receiver must get exactly the sent payloads (per-sender order, byte-exact, once), 4-byte frames must surface as *codec.ProtocolErr with that code, and the listener's detected codec must be the client's.",
